@@ -355,6 +355,16 @@ func (x *Exec) execInstr(f *Frame, b *ssa.BasicBlock, ins ssa.Instruction) {
 	case *ssa.BinOp:
 		xv := x.term(f, i.X)
 		yv := x.term(f, i.Y)
+		// the hidden index of a range loop is -1 .. len (at most 2^48): its increment cannot wrap
+		if u, ok := i.X.(*ssa.UnOp); ok && i.Op == token.ADD && u.Op == token.MUL {
+			if a, ok := u.X.(*ssa.Alloc); ok && a.Comment == "rangeindex" {
+				if c, ok := i.Y.(*ssa.Const); ok && c.Value != nil && c.Value.ExactString() == "1" {
+					x.assume(x.cur.reach, And(mk(SBool, "(>= %s (- 1))", xv), mk(SBool, "(<= %s 281474976710656)", xv)))
+					x.setReg(f, i, mk(SInt, "(+ %s 1)", xv))
+					break
+				}
+			}
+		}
 		x.setReg(f, i, x.binop(f, i.Op, xv, yv, i.X.Type(), i.Y.Type(), i.Type(), i.Pos()))
 	case *ssa.FieldAddr:
 		x.execFieldAddr(f, i)
